@@ -48,7 +48,8 @@ class TrilExpDiagonalTransform(Transform):
         return x[tril_indices[0], tril_indices[1]]
 
     def log_abs_det_jacobian(self, x, y):
-        raise NotImplementedError
+        # only the diagonal entries are transformed (exponentiated)
+        return y.diag().log().sum()
 
 
 class CumSumTransform(Transform):
